@@ -15,7 +15,13 @@ Obs(d, n) == /\ Judge("C15", ~E.panic /\ E.bytes = PbImage(d, n), I("image"))
 
 TNew == E.ev = "pb_new" /\ data' = <<>> /\ elements' = 0 /\ Obs(<<>>, 0)
 TAdd == /\ E.ev = "pb_add"
-        /\ IF PbFits(elements + 1)
+        /\ IF ~TreeFits(E.tree)
+           THEN \* the element itself is refused (too many method arguments, package elements, name segments ...): the
+                \* builder must be left as it was -- same payload, same element count
+                /\ Judge("C18", E.add_panic, I("oversize_element_not_refused"))
+                /\ Judge("C18", E.add_panic => (~E.ser_panic /\ E.bytes = PbImage(data, elements)), I("refused_element_changed_builder"))
+                /\ UNCHANGED <<data, elements>>
+           ELSE IF PbFits(elements + 1)
            THEN data' = data \o E.elem /\ elements' = elements + 1 /\ Obs(data', elements')   \* E.elem: the element serialised on its own
            ELSE \* the 256th element: the only behaviour allowed is refusal, at the add or at serialisation
                 /\ Judge("C18", E.panic, I("oversize_not_refused"))
